@@ -56,6 +56,16 @@ func c07Default(c *cx) {
 		c.r.Check("C07.3", f, "responseChecker literal", "K: the detector is keyed by the request's id and wraps the session writer", cl.Pos(), okid && okw, "id or TokenWriter field not as expected")
 		return true
 	})
+	// C07.6 a request is never taken for the answer to one of ours: the
+	// pending-request table is consulted only for result/error stanzas
+	nl := 0
+	for _, u := range fieldUsesIn(f, "xmpp.Session.sentStanzas") {
+		nl++
+		c.domAny("C07.6", f, u, "pending-request lookup only for replies", []string{
+			`or(eq(xmpp.getIDTyp(*.Attr)#3,"error") | eq(xmpp.getIDTyp(*.Attr)#3,"result"))`,
+			`eq(xmpp.getIDTyp(*.Attr)#3,"result")`, `eq(xmpp.getIDTyp(*.Attr)#3,"error")`})
+	}
+	c.r.Floor("C07.6", "lookups of the pending-request table in handleInputStream", nl, 1)
 	// writes of the function through the deferred writer
 	var copies []*ast.CallExpr
 	for _, cl := range f.Calls("mellium.im/xmlstream.Copy") {
